@@ -163,6 +163,8 @@ def slice_generator(data, axis=0):
     """
     data = np.asarray(data)
     if type(axis) is int:
+        if axis < 0:
+            axis += data.ndim
         for j in range(data.shape[axis]):
             ij = (slice(None,None,None),)*axis + (j,)
             yield ij, data[(slice(None,None,None),)*axis + (j,)]
@@ -183,8 +185,8 @@ def slice_generator(data, axis=0):
 
     for n in range(nmax):
         slices = slice_template.copy()
-        for (a, div, mod) in zip(axis, divs, mods):
-            x = int(n / div % mod)
+        for (a, div, axis_len) in zip(axis, divs, axis_lens):
+            x = int(n // div % axis_len)
             slices[a] = x
         slices = tuple(slices)
         yield slices, data[slices]
